@@ -16,14 +16,6 @@ variable {D : Type}
 def RoundTrip : Prop :=
   ∀ x : Parsed, x.wf = true → ∃ b, exportTx x = .ok b ∧ parseExported b = .ok { x with hdr := x.hdr.norm }
 
-/-- Along the run, whenever the next transaction of `P` the replica expects has `BlTxID = 0`, the
-pooled `Tx` holds a zero `BlRoot`. -/
-def PoolFreshFrom (hs : Hs D) (P : List (RRec D)) : RSt D → List Op → Prop
-  | _, [] => True
-  | st, op :: ops =>
-    (∀ h : st.lastPre < P.length, (P[st.lastPre]).hdr.blTxID = 0 → st.poolBlRoot = zeros32) ∧
-    PoolFreshFrom hs P (st.apply hs op) ops
-
 namespace ReplicaPrefixAux
 
 /-- A genuine export parses back to what was framed (the header is already normalised). -/
@@ -44,26 +36,24 @@ theorem inv_apply (rt : RoundTrip) {cfg : RCfg} {P : List (RRec D)} (hs : Hs D) 
     {st : RSt D} (hi : Inv cfg P st) (op : Op)
     (hop : match op with
       | .deliver b _ => ∃ k tr, ∃ (h : k < P.length), exportOf (P[k]) tr = .ok b
-      | _ => True)
-    (hpool : ∀ h : st.lastPre < P.length, (P[st.lastPre]).hdr.blTxID = 0 → st.poolBlRoot = zeros32) : Inv cfg P (st.apply hs op) := by
+      | _ => True) : Inv cfg P (st.apply hs op) := by
   cases op with
   | deliver b skip =>
     obtain ⟨k, tr, hk, hb⟩ := hop
-    exact inv_replicate hs hP hi b skip k hk tr hpool (parse_export rt hs cfg P hP k hk tr b hb)
+    exact inv_replicate hs hP hi b skip k hk tr (parse_export rt hs cfg P hP k hk tr b hb)
   | sync => exact inv_sync hi
   | discard txID => exact inv_discard hi txID
   | allow txID => exact inv_allow hi txID
   | restart => exact inv_restart hs hi
 
 theorem inv_run (rt : RoundTrip) {cfg : RCfg} {P : List (RRec D)} (hs : Hs D) (hP : Genuine hs cfg P)
-    (ops : List Op) (hops : DeliversOnly P ops) {st : RSt D} (hi : Inv cfg P st)
-    (hpool : PoolFreshFrom hs P st ops) :
+    (ops : List Op) (hops : DeliversOnly P ops) {st : RSt D} (hi : Inv cfg P st) :
     Inv cfg P (st.run hs ops) := by
   induction ops generalizing st with
   | nil => exact hi
   | cons op t ih =>
     exact ih (fun o ho => hops o (List.mem_cons_of_mem _ ho))
-      (inv_apply rt hs hP hi op (hops op List.mem_cons_self) hpool.1) hpool.2
+      (inv_apply rt hs hP hi op (hops op List.mem_cons_self))
 
 end ReplicaPrefixAux
 open ReplicaPrefixAux
@@ -76,12 +66,11 @@ transactions the replica holds (committed followed by precommitted) are, positio
 the first transactions of `P`: same header, same accumulated hash, same entries (with or without
 values). -/
 theorem replica_prefix_aux (rt : RoundTrip) (hs : Hs D) (cfg : RCfg) (P : List (RRec D))
-    (hP : Genuine hs cfg P) (ops : List Op) (hops : DeliversOnly P ops)
-    (hpool : PoolFreshFrom hs P (RSt.init cfg : RSt D) ops) :
+    (hP : Genuine hs cfg P) (ops : List Op) (hops : DeliversOnly P ops) :
     ((RSt.init cfg : RSt D).run hs ops).chain.length ≤ P.length ∧
     ∀ i (h : i < ((RSt.init cfg : RSt D).run hs ops).chain.length) (h' : i < P.length),
       SameTx ((((RSt.init cfg : RSt D).run hs ops).chain)[i]) (P[i]) :=
-  inv_final (inv_run rt hs hP ops hops (inv_init cfg P) hpool)
+  inv_final (inv_run rt hs hP ops hops (inv_init cfg P))
 
 /-- The replica's chain is the first `n` transactions of `P`. -/
 def HoldsPrefix (st : RSt D) (P : List (RRec D)) (n : Nat) : Prop :=
@@ -119,18 +108,17 @@ theorem replica_accepts_next_aux (rt : RoundTrip) (hs : Hs D) (cfg : RCfg) (P : 
     (hwin : st.cfg.synced = true → n < st.committed.length + st.cfg.maxActive)
     (hact : 0 < st.cfg.maxActive)
     (hallow : st.cfg.extAllowance = true → st.allowed ≤ n + 1)
-    (hpool : (P[n]).hdr.blTxID = 0 → st.poolBlRoot = zeros32)
     (b : Bytes) (hb : exportOf (P[n]) tr = .ok b) :
     ∃ r, (replicate hs st b skip).out = .ok r ∧ SameTx r (P[n]) ∧
       HoldsPrefix (replicate hs st b skip).st P (n + 1) := by
   obtain ⟨hlen, hnP, hsame⟩ := hpre
   have hparse := parse_export rt hs cfg P hP n hn tr b hb
   obtain ⟨r, hpc⟩ := precommit_genuine_ok hs cfg P hP st hcfg n hn tr skip hlen hsame hwait hwin hact
-  obtain ⟨p1, p2, p3⟩ := precommit_genuine_inv hs cfg P hP st hcfg n hn tr skip r hpool hpc
+  obtain ⟨p1, p2, p3⟩ := precommit_genuine_inv hs cfg P hP st hcfg n hn tr skip r hpc
   have hch : st.chain.length = st.committed.length + st.pre.length := by simp [RSt.chain]
   -- the state after the in-memory precommit, whatever `durable`/`waitDone` become
   have hc1 : ∀ (d w : Nat),
-      ({ st with log := st.log ++ [(r, true)], ghost := none, poolBlRoot := r.hdr.blRoot,
+      ({ st with log := st.log ++ [(r, true)], ghost := none,
                  waitDone := w, durable := d } : RSt D).chain =
         st.chain ++ [r] := by
     intro d w
@@ -170,16 +158,17 @@ theorem replica_accepts_next_aux (rt : RoundTrip) (hs : Hs D) (cfg : RCfg) (P : 
     rw [mayCommit_chain _ _ h3]
     exact hc1 _ _
 
-/-- **The unconditional prefix statement is false for the model (and the code).**  Replicate tx 1
-and tx 2 (`BlTxID = 1`), discard both, replicate tx 1 again: the pooled `Tx` still carries the
-`BlRoot` of tx 2, `performPrecommit` does not reset it for `BlTxID = 0`, and the replica ends up
-holding a tx 1 whose header has tx 2's `BlRoot`. -/
-theorem stale_blroot_rereplication (rt : RoundTrip) (hs : Hs D) (cfg : RCfg) (P : List (RRec D)) (hP : Genuine hs cfg P)
-    (h2 : 2 ≤ P.length) (hbl : (P[1]'(by omega)).hdr.blTxID = 1)
+/-- **Re-replication from genesis** (the run that used to refute the unconditional prefix statement:
+before the repair of `performPrecommit` the third delivery stored tx 1 with the `BlRoot` of tx 2, left
+in the pooled `Tx`).  Replicate tx 1 and tx 2, discard both, replicate tx 1 again: the
+replica holds exactly the primary's tx 1 — header (`BlTxID = 0`, zero `BlRoot`), accumulated hash,
+entries. -/
+theorem rereplication_from_genesis (rt : RoundTrip) (hs : Hs D) (cfg : RCfg) (P : List (RRec D)) (hP : Genuine hs cfg P)
+    (h2 : 2 ≤ P.length)
     (hcfg : cfg.synced = false ∧ cfg.extAllowance = true ∧ 2 ≤ cfg.maxActive)
     (b0 b1 : Bytes) (e0 : exportOf (P[0]'(by omega)) false = .ok b0) (e1 : exportOf (P[1]'(by omega)) false = .ok b1) :
     let st := (RSt.init cfg : RSt D).run hs [.deliver b0 false, .deliver b1 false, .discard 1, .deliver b0 false]
-    ∃ r, st.chain = [r] ∧ r.hdr.blTxID = 0 ∧ r.hdr.blRoot = (P[1]'(by omega)).hdr.blRoot := by
+    ∃ r, st.chain = [r] ∧ SameTx r (P[0]'(by omega)) ∧ r.hdr.blTxID = 0 ∧ r.hdr.blRoot = zeros32 := by
   obtain ⟨hsy, hx, hma⟩ := hcfg
   have hk0 : 0 < P.length := by omega
   have hk1 : 1 < P.length := by omega
@@ -191,10 +180,10 @@ theorem stale_blroot_rereplication (rt : RoundTrip) (hs : Hs D) (cfg : RCfg) (P 
   obtain ⟨r0, hpc0⟩ := precommit_genuine_ok hs cfg P hP s0 (hlim s0 rfl) 0 hk0 false false rfl
     (fun i h => absurd h (by simp [s0, RSt.init, RSt.chain, RSt.pre]))
     (Nat.le_refl _) (fun c => by simp [s0, RSt.init, hsy] at c) (by show 0 < cfg.maxActive; omega)
-  obtain ⟨_, _, q0⟩ := precommit_genuine_inv hs cfg P hP s0 (hlim s0 rfl) 0 hk0 false false r0 (fun _ => rfl) hpc0
-  obtain ⟨a1, a2, a3, a4, a5, a6, a7⟩ := replicate_ext0 hs s0 b0 false _ r0 hparse0 hpc0
+  obtain ⟨_, _, q0⟩ := precommit_genuine_inv hs cfg P hP s0 (hlim s0 rfl) 0 hk0 false false r0 hpc0
+  obtain ⟨a1, a2, a3, a4, a5, a6⟩ := replicate_ext0 hs s0 b0 false _ r0 hparse0 hpc0
     (by show 0 < cfg.maxActive; omega) hsy hx rfl rfl
-  generalize hs1 : (replicate hs s0 b0 false).st = s1 at a1 a2 a3 a4 a5 a6 a7
+  generalize hs1 : (replicate hs s0 b0 false).st = s1 at a1 a2 a3 a4 a5 a6
   have a3' : s1.log = [(r0, true)] := a3
   obtain ⟨c1, c2, c3⟩ := chain_of_fields s1 _ a2 a3'
   simp only [live_cons_true, live_nil, List.length_cons, List.length_nil] at c1 c2 c3
@@ -209,29 +198,27 @@ theorem stale_blroot_rereplication (rt : RoundTrip) (hs : Hs D) (cfg : RCfg) (P 
     (by have : s0.lastPre = 0 := rfl
         omega)
     (fun c => by rw [hcfg1, hsy] at c; cases c) (by rw [hcfg1]; omega)
-  obtain ⟨_, _, q1⟩ := precommit_genuine_inv hs cfg P hP s1 (hlim s1 hcfg1) 1 hk1 false false r1
-    (fun c => by rw [hbl] at c; cases c) hpc1
-  obtain ⟨d1, d2, d3, d4, d5, d6, d7⟩ := replicate_ext0 hs s1 b1 false _ r1 hparse1 hpc1
+  obtain ⟨d1, d2, d3, d4, d5, d6⟩ := replicate_ext0 hs s1 b1 false _ r1 hparse1 hpc1
     (by rw [c2, a5]; show 1 < cfg.maxActive; omega) (by rw [hcfg1]; exact hsy) (by rw [hcfg1]; exact hx) a4 a2
-  generalize hs2 : (replicate hs s1 b1 false).st = s2 at d1 d2 d3 d4 d5 d6 d7
+  generalize hs2 : (replicate hs s1 b1 false).st = s2 at d1 d2 d3 d4 d5 d6
   have d3' : s2.log = [(r0, true), (r1, true)] := by rw [d3, a3']; rfl
   obtain ⟨f1, f2, f3⟩ := chain_of_fields s2 _ d2 d3'
   simp only [live_cons_true, live_nil, List.length_cons, List.length_nil] at f1 f2 f3
   -- the discard
-  obtain ⟨g1, g2, g3, g4, g5, g6, g7⟩ := discard_fields s2 1 (by omega) (by rw [d2]; simp) (by rw [f3]; omega)
-  generalize hs3 : (discardSince s2 1).st = s3 at g1 g2 g3 g4 g5 g6 g7
+  obtain ⟨g1, g2, g3, g4, g5, g6⟩ := discard_fields s2 1 (by omega) (by rw [d2]; simp) (by rw [f3]; omega)
+  generalize hs3 : (discardSince s2 1).st = s3 at g1 g2 g3 g4 g5 g6
   have g3' : s3.log = [(r0, false), (r1, false)] := by
     rw [g3, f2, f3, d3']; rfl
   have g2' : s3.committed = [] := by rw [g2, d2]
   obtain ⟨k1, k2, k3⟩ := chain_of_fields s3 _ g2' g3'
   simp only [live_cons_false, live_nil, List.length_nil] at k1 k2 k3
   have hcfg3 : s3.cfg = cfg := by rw [g1, d1, hcfg1]
-  -- third delivery: accepted again, with the pooled `BlRoot`
+  -- third delivery: accepted again, and it is the primary's tx 1
   obtain ⟨r2, hpc2⟩ := precommit_genuine_ok hs cfg P hP s3 (hlim s3 hcfg3) 0 hk0 false false (by rw [k1]; rfl)
     (fun i h => absurd h (by rw [k1]; simp)) (Nat.zero_le _)
     (fun c => by rw [hcfg3, hsy] at c; cases c) (by rw [hcfg3]; omega)
-  obtain ⟨_, m2, _, _⟩ := precommit_genuine_shape hs cfg P hP s3 (hlim s3 hcfg3) 0 hk0 false false r2 hpc2
-  obtain ⟨n1, n2, n3, n4, n5, n6, n7⟩ := replicate_ext0 hs s3 b0 false _ r2 hparse0 hpc2
+  obtain ⟨_, _, q2⟩ := precommit_genuine_inv hs cfg P hP s3 (hlim s3 hcfg3) 0 hk0 false false r2 hpc2
+  obtain ⟨n1, n2, n3, n4, n5, n6⟩ := replicate_ext0 hs s3 b0 false _ r2 hparse0 hpc2
     (by rw [k2, g5, d5, a5]; show 0 < cfg.maxActive; omega) (by rw [hcfg3]; exact hsy) (by rw [hcfg3]; exact hx)
     (by rw [g4, d4]) g2'
   have hb0 : (P[0]).hdr.blTxID = 0 := by have := (hP.recs 0 hk0).2.2.2.1; omega
@@ -245,10 +232,8 @@ theorem stale_blroot_rereplication (rt : RoundTrip) (hs : Hs D) (cfg : RCfg) (P 
   have n3' : (replicate hs s3 b0 false).st.log = [(r0, false), (r1, false), (r2, true)] := by rw [n3, g3']; rfl
   obtain ⟨o1, _, _⟩ := chain_of_fields _ _ n2 n3'
   simp only [live_cons_false, live_cons_true, live_nil] at o1
-  refine ⟨r2, o1, by rw [m2]; exact hb0, ?_⟩
-  rw [m2]
-  show storedBl s3 (P[0]).hdr = _
-  unfold storedBl
-  rw [if_neg (by omega), g7, d7, q1.1]
+  have hz : (P[0]).hdr.blRoot = zeros32 := by
+    rw [(hP.recs 0 hk0).2.2.2.2.1, blRootOf, if_neg (by omega)]
+  exact ⟨r2, o1, q2, by rw [q2.1]; exact hb0, by rw [q2.1]; exact hz⟩
 
 end ImmuModel.Replica
